@@ -1,5 +1,11 @@
-//! Harness-side HELPERS for src/hpack/encoder.rs needed by the connection-level SETTINGS contracts
-//! (observer only; the hpack work package may add contracts to this file).
+//! Contracts for src/hpack/encoder.rs — property C10 ("HPACK encoder and decoder stay in sync"):
+//!   * `encode_int` emits the RFC 7541 §5.1 representation (checked with the §5.1 *decoder* pseudo code of
+//!     hpack__decoder.rs) and the real `decode_int` reads it back, for every prefix size and every value
+//!     below 2^32; the two implementation limits are compared;
+//!   * `update_max_size` / `encode_size_updates` against RFC 7541 §4.2 / §6.3 (size-update signalling);
+//!   * `encode_str` framing of short strings.
+//! The robin-hood index (`Table::index`) and therefore `Encoder::encode` on non-empty header lists are
+//! out of scope.
 #![allow(dead_code, unused_imports)]
 use super::*;
 
@@ -30,3 +36,196 @@ impl Encoder {
     }
 }
 // ---- connlevel helpers end
+
+
+/// An encoder as `Encoder::new` builds it, with any table limit `t0 <= cap` (Encoder::new takes the min
+/// with DEFAULT_MAX_ALLOWED_SIZE; update_max_size caps every later value) and any pending state.
+/// The dynamic table is empty (capacity 0: no index allocated).
+pub(crate) fn vk_mk_encoder(t0: usize, cap: usize, pending: Option<(usize, Option<usize>)>) -> Encoder {
+    Encoder {
+        table: Table::new(t0, 0),
+        max_allowed_size: cap,
+        size_update: match pending {
+            None => None,
+            Some((a, None)) => Some(SizeUpdate::One(a)),
+            Some((a, Some(b))) => Some(SizeUpdate::Two(a, b)),
+        },
+        scratch: BytesMut::new(),
+    }
+}
+
+/// The pending size updates as the list that the next header block must start with: (count, first, second).
+pub(crate) fn vk_pending(e: &Encoder) -> (usize, usize, usize) {
+    match e.size_update {
+        None => (0, 0, 0),
+        Some(SizeUpdate::One(v)) => (1, v, v),
+        Some(SizeUpdate::Two(a, b)) => (2, a, b),
+    }
+}
+
+#[cfg(kani)]
+mod proofs {
+    use super::*;
+    use crate::hpack::decoder::verif_kani::{rfc_decode_int, vk_decode_int, RefInt, MAX_CONT_OCTETS};
+    use crate::hpack::DecoderError;
+
+    // C10, integers.  Every value < 2^32, every prefix size 1..=8 (call sites use 4, 5, 6, 7), every
+    // first octet whose prefix bits are clear (call sites pass the pattern constants 0x80, 0x40, 0x20,
+    // 0x10, 0).  Complete: the encoder loop runs ceil(32 / 7) = 5 times at most for a 32-bit value.
+    //   * the output is the §5.1 representation: the RFC decoder returns the value and reads every octet;
+    //   * the pattern bits of the first octet survive; a value below 2^N - 1 takes one octet (shortest form);
+    //   * sync of the two implementation limits: h2's decoder accepts the output exactly when it has at most
+    //     4 continuation octets, which is exactly value < 2^N - 1 + 2^28; above that the ENCODER still emits
+    //     a (RFC-valid) 5-continuation-octet form that h2's own DECODER refuses with IntegerOverflow.
+    // @harness id=hpack_enc_encode_int_roundtrip props=C10,C11 kind=complete tier=quick fn=encode_int,encode_int_one_byte,decode_int
+    #[kani::proof]
+    #[kani::unwind(8)]
+    fn hpack_enc_encode_int_roundtrip() {
+        let value: u32 = kani::any();
+        let p: usize = kani::any();
+        kani::assume(1 <= p && p <= 8);
+        let mask: u8 = if p == 8 { 0xff } else { (1u8 << p) - 1 };
+        let first: u8 = kani::any();
+        kani::assume(first & mask == 0);
+        let mut buf = [0u8; 8];
+        let written = {
+            let mut dst = &mut buf[..];
+            encode_int(value as usize, p, first, &mut dst);
+            8 - dst.len()
+        };
+        let (spec_done, spec_v, spec_c) = match rfc_decode_int(&buf, written, p as u8) {
+            RefInt::Value(v, c) => (true, v, c),
+            RefInt::NeedMore => (false, 0, 0),
+        };
+        assert!(spec_done && spec_v == value as u64, "hpack.encode_int.rfc_decoder_returns_the_value");
+        assert!(spec_c == written, "hpack.encode_int.no_trailing_octets");
+        assert!(buf[0] & !mask == first, "hpack.encode_int.pattern_bits_preserved");
+        assert!((value < mask as u32) == (written == 1), "hpack.encode_int.one_octet_iff_below_prefix_max");
+        assert!(1 <= written && written <= 6, "hpack.encode_int.at_most_5_continuation_octets_for_32_bits");
+
+        let in_decoder_range = (value as u64) < mask as u64 + (1u64 << 28);
+        assert!((written <= 1 + MAX_CONT_OCTETS) == in_decoder_range, "hpack.encode_int.within_decoder_octet_limit_iff_below_2_pow_28_plus_prefix");
+        let (r, consumed) = vk_decode_int(&buf[..written], p as u8);
+        assert!(!in_decoder_range || (r == Ok(value as usize) && consumed == written), "hpack.encode_int.h2_decoder_reads_it_back");
+        assert!(in_decoder_range || r == Err(DecoderError::IntegerOverflow), "hpack.encode_int.above_range_h2_decoder_refuses");
+        kani::cover!(written == 5 && p == 5, "cover.four_continuation_octets");
+        kani::cover!(written == 6, "cover.beyond_decoder_limit");
+        kani::cover!(written == 2 && value as u64 == mask as u64, "cover.exactly_prefix_max");
+    }
+
+    // RFC 7541 §4.2: "If the size is changed multiple times between two header blocks, the smallest
+    // maximum table size that occurs in that interval MUST be signaled in a dynamic table size update.
+    // The final maximum size is always signaled, resulting in at most two dynamic table size updates."
+    // §6.3: every update <= the limit (here: the encoder's own cap `max_allowed_size`, 4096 outside tests;
+    // Encoder::new and update_max_size take the min with it).
+    // Any encoder right after a block (nothing pending, table limit t0 <= cap), then 1, 2 or 3 requests.
+    // Loop-free over the full domain: complete.
+    // @harness id=hpack_enc_update_max_size props=C10 kind=complete tier=quick fn=Encoder::update_max_size
+    #[kani::proof]
+    fn hpack_enc_update_max_size() {
+        let cap: usize = kani::any();
+        let t0: usize = kani::any();
+        kani::assume(t0 <= cap);
+        let mut enc = vk_mk_encoder(t0, cap, None);
+        let v: [usize; 3] = kani::any();
+        let k: u8 = kani::any();
+        kani::assume(1 <= k && k <= 3);
+        let c = [v[0].min(cap), v[1].min(cap), v[2].min(cap)];
+        enc.update_max_size(v[0]);
+        let mut smallest = c[0];
+        let mut last = c[0];
+        if k >= 2 {
+            enc.update_max_size(v[1]);
+            smallest = smallest.min(c[1]);
+            last = c[1];
+        }
+        if k >= 3 {
+            enc.update_max_size(v[2]);
+            smallest = smallest.min(c[2]);
+            last = c[2];
+        }
+        let (n, first, second) = vk_pending(&enc);
+        // the final size is always signalled, last; nothing is signalled only if nothing has to be
+        assert!(n == 0 || second == last, "hpack.update_max_size.final_size_signalled_last");
+        assert!(n != 0 || (last == t0 && smallest >= t0), "hpack.update_max_size.nothing_pending_only_if_unchanged_and_never_reduced");
+        // a reduction below the size in force at the last block is signalled, smallest value first
+        assert!(smallest >= t0 || (n >= 1 && first == smallest), "hpack.update_max_size.smallest_intermediate_size_signalled_first");
+        assert!(n != 2 || (first == smallest && first <= second), "hpack.update_max_size.two_updates_are_min_then_final");
+        assert!(first <= cap && second <= cap, "hpack.update_max_size.never_above_cap");
+        // nothing else moves before the next block
+        assert!(enc.table.max_size() == t0 && enc.max_allowed_size == cap, "hpack.update_max_size.table_untouched_until_next_block");
+        kani::cover!(n == 2 && k == 3 && first < t0 && second > t0, "cover.dip_then_raise_in_three_steps");
+        kani::cover!(n == 1 && k == 2 && v[0] < v[1] && smallest > t0, "cover.raise_twice_is_one_update");
+        kani::cover!(n == 0 && k == 2, "cover.back_to_current_without_dip");
+        kani::cover!(v[2] > cap && n == 1 && k == 3, "cover.capped");
+        std::mem::forget(enc);
+    }
+
+    // `Encoder::encode` starts every block with the pending updates (RFC 7541 §4.2 "at the beginning of the
+    // first header block following the change"), each as a §6.3 representation (pattern 001, 5-bit prefix
+    // integer), applies them to the encoder's own table in the same order and clears the pending state.
+    // Any pending state of the given shape (0 none, 1 One(a), 2 Two(a, b)) that update_max_size can
+    // produce (values <= cap = 4096, the production constant), empty header list, empty dynamic table.
+    // Returns (octets written, a, b) for the callers' covers.
+    fn enc_size_updates_case(shape: u8) -> (usize, usize, usize) {
+        let cap = DEFAULT_MAX_ALLOWED_SIZE;
+        let t0: usize = kani::any();
+        let a: usize = kani::any();
+        let b: usize = kani::any();
+        kani::assume(t0 <= cap && a <= cap && b <= cap);
+        let pending = match shape {
+            0 => None,
+            1 => Some((a, None)),
+            _ => Some((a, Some(b))),
+        };
+        let mut enc = vk_mk_encoder(t0, cap, pending);
+        let mut dst = BytesMut::with_capacity(16);
+        enc.encode(std::iter::empty(), &mut dst);
+        let n = dst.len();
+        // copy out (unrolled: the harness unwind bound is the encoder's, not the copy's)
+        let at = |i: usize| if i < n { dst[i] } else { 0 };
+        let out = [at(0), at(1), at(2), at(3), at(4), at(5), at(6), at(7)];
+        // decode what was written with the RFC integer decoder
+        let (d1, v1, c1) = match rfc_decode_int(&out, n, 5) {
+            RefInt::Value(v, c) => (true, v, c),
+            RefInt::NeedMore => (false, 0, 0),
+        };
+        let (d2, v2, c2) = if d1 && c1 < n {
+            match rfc_decode_int(&out[c1..], n - c1, 5) {
+                RefInt::Value(v, c) => (true, v, c),
+                RefInt::NeedMore => (false, 0, 0),
+            }
+        } else {
+            (false, 0, 0)
+        };
+        assert!(n <= 6, "hpack.encode_size_updates.at_most_two_short_updates");
+        assert!(shape != 0 || n == 0, "hpack.encode_size_updates.nothing_pending_nothing_emitted");
+        assert!(shape != 1 || (d1 && c1 == n && out[0] >> 5 == 0b001 && v1 == a as u64), "hpack.encode_size_updates.one_update_emitted_as_rfc_6_3");
+        assert!(shape != 2 || (d1 && d2 && c1 + c2 == n && out[0] >> 5 == 0b001 && out[if c1 < 8 { c1 } else { 0 }] >> 5 == 0b001 && v1 == a as u64 && v2 == b as u64), "hpack.encode_size_updates.two_updates_emitted_in_order");
+        assert!(enc.size_update.is_none(), "hpack.encode_size_updates.pending_state_cleared");
+        let want = if shape == 0 { t0 } else if shape == 1 { a } else { b };
+        assert!(enc.table.max_size() == want, "hpack.encode_size_updates.own_table_limit_is_last_update");
+        std::mem::forget(enc);
+        std::mem::forget(dst);
+        (n, a, b)
+    }
+
+    // @harness id=hpack_enc_encode_size_updates_0_1 props=C10 kind=bounded bound=empty_header_list,empty_table tier=quick fn=Encoder::encode,Encoder::encode_size_updates,encode_size_update
+    #[kani::proof]
+    #[kani::unwind(3)]
+    fn hpack_enc_encode_size_updates_0_1() {
+        let (n0, _, _) = enc_size_updates_case(0);
+        let (n1, a, _) = enc_size_updates_case(1);
+        kani::cover!(n0 == 0 && n1 == 3, "cover.three_octet_update");
+        kani::cover!(n1 == 1 && a == 0, "cover.zero");
+    }
+
+    // @harness id=hpack_enc_encode_size_updates_2 props=C10 kind=bounded bound=empty_header_list,empty_table tier=quick fn=Encoder::encode,Encoder::encode_size_updates,encode_size_update
+    #[kani::proof]
+    #[kani::unwind(3)]
+    fn hpack_enc_encode_size_updates_2() {
+        let (n, a, b) = enc_size_updates_case(2);
+        kani::cover!(n == 4 && a == 0 && b == 4096, "cover.zero_then_4096");
+        kani::cover!(n == 2, "cover.two_one_octet_updates");
+    }
+}
